@@ -32,6 +32,9 @@ OBLIGATIONS = ["NiftyVerif.C01." + t for t in (
     "blockHom_proj", "den_unitEntry", "combineSum_sound", "mkSumU_pair_sound", "combineSum_missing_missing",
     "combineSum_mkSumU_sound", "sumMergeBlocksInner_sound", "sumMergeBlocks_sound", "combineChainEntry_sound",
     "combineChain_sound", "chainMergeBlock_sound",
+    "list_intertwine", "list_intertwine_rev", "signedSum_intertwine", "inv_intertwine", "adapter_io", "chain_io", "den_typed",
+    "typed_scaling", "typed_mul", "tree_sound_typed",
+    "ReqE_eq_reqE", "mkSumU_list_sound", "mkChainU_list_sound", "build_list", "nary_core",
 )]
 RULE = ("random construction scripts (typed generator over 8 small domains, 14 leaves with independently known exact "
         "matrices, scaling/diagonal/partial-space diagonal/null/block-diagonal/sandwich/InversionEnabler, combined with "
@@ -221,7 +224,51 @@ def gen_targeted(W, rng, kind=None):
     def bin_(op, a, b):
         return dict(op=op, a=a, b=b, d=d, t=d)
     kind = kind or rng.choice(["sum-absorb", "sum-absorb", "sum-diags", "chain-scal", "chain-scal", "chain-diags", "flip-chain",
-                               "sandwich-scal", "block", "block", "block", "neg-single", "enabler-chain"])
+                               "sandwich-scal", "block", "block", "block", "neg-single", "enabler-chain", "nary", "nary",
+                               "sandwich-nested"])
+    if kind == "sandwich-nested":
+        # SandwichOperator.make with a SandwichOperator as cheese (two or three layers): the buns are chained, in the right order
+        # only if `old_bun @ bun`; buns between different domains and non-commuting square leaves
+        def layer(dd, depth):
+            mids = [m for m in range(len(W.sizes)) if W.connected(dd, m)]
+            m = rng.choice(mids)
+            bun = gen(W, rng, dd, m, rng.choice([0, 0, 1]))
+            if depth <= 0:
+                cheese = None if rng.random() < 0.4 else gen(W, rng, m, m, 0)
+            else:
+                cheese = layer(m, depth - 1)
+            return dict(op="sandwich", bun=bun, cheese=cheese, dt=pick_dt(rng), d=dd, t=dd)
+        e = layer(d, rng.choice([1, 1, 2]))
+        if rng.random() < 0.2:
+            e = dict(op=rng.choice(["adjoint", "neg"]), a=e, d=d, t=d)
+        return e
+    if kind == "nary":
+        # SumOperator.make / ChainOperator.make called directly with 3..6 operands: the rules that merge the 2nd, 3rd, .. scaling,
+        # diagonal or block operand into an accumulated one (sign / transformation bookkeeping across several merges) are not
+        # reachable through the binary operators, which simplify after every step
+        n = rng.choice([3, 3, 4, 5, 6])
+        focus = rng.random() < 0.5        # half of the cases: (almost) only operands of ONE mergeable class
+        if rng.random() < 0.5:
+            pool = [lambda: diag(), lambda: diag(), lambda: diag(same_dt=False), lambda: scal(), lambda: other()]
+            if focus:
+                pool = rng.choice([[lambda: diag()] * 5 + [lambda: other()], [lambda: scal()] * 4 + [lambda: diag(), lambda: other()]])
+            args = [rng.choice(pool)() for _ in range(n)]
+            neg = [rng.random() < 0.45 for _ in range(n)]
+            if rng.random() < 0.5:
+                neg[0] = True
+            e = dict(op="sumN", args=args, neg=neg, d=d, t=d)
+        else:
+            pool = [lambda: diag(), lambda: diag(), lambda: scal(), lambda: scal(cplx=True), lambda: other()]
+            if focus:
+                pool = rng.choice([[lambda: diag()] * 5 + [lambda: other()],
+                                   [lambda: scal(), lambda: scal(cplx=True), lambda: scal(cplx=False), lambda: diag(), lambda: other()]])
+            e = dict(op="chainN", args=[rng.choice(pool)() for _ in range(n)], d=d, t=d)
+        r = rng.random()
+        if r < 0.15:
+            e = dict(op="adjoint", a=e, d=d, t=d)
+        elif r < 0.3:
+            e = bin_(rng.choice(["add", "sub", "matmul"]), e, other())
+        return e
     if kind == "enabler-chain":
         # InversionEnabler around a Hermitian positive definite CHAIN that advertises only TIMES and ADJOINT_INVERSE_TIMES:
         # ADJOINT_TIMES / INVERSE_TIMES are then solved numerically with `chain._flip_modes(3)` / `_flip_modes(1)`
@@ -319,7 +366,7 @@ def walk(e):
     yield e
     for _, c in OW.children(e):
         yield from walk(c)
-    for x in e.get("ents", []) or []:
+    for x in (e.get("ents", []) or []) + (e.get("args", []) or []):
         if isinstance(x, dict):
             yield from walk(x)
 
@@ -374,11 +421,35 @@ def expected_matrix(W, script, mode):
         return None
 
 
+def divides_by_zero(e, under_inverse=False):
+    """does the script take `.inverse` of (an expression containing) a diagonal with an exact zero entry or a zero scaling?  The
+    code then computes with 1/0 = inf (`inf * 0`, `inf * (0+0j)` = nan depending on where diagonals are merged): documented as
+    the caller's responsibility, no matrix semantics - such scripts are not judged"""
+    if not isinstance(e, dict):
+        return False
+    op = e.get("op")
+    if under_inverse:
+        if op == "diag" and any(X.g(v) == X.ZERO for v in e["v"]):
+            return True
+        if op in ("scaling", "scale") and X.g(e["c"]) == X.ZERO:
+            return True
+    ui = under_inverse or op == "inverse"
+    for _, c in OW.children(e):
+        if divides_by_zero(c, ui):
+            return True
+    for x in (e.get("ents", []) or []) + (e.get("args", []) or []):
+        if isinstance(x, dict) and divides_by_zero(x, ui):
+            return True
+    return False
+
+
 def oracle(case):
     """The property on the real code only: a well-typed script must build; the result must advertise at least the modes
     its constituents provide; every advertised mode must act as the matrix expression (real and imaginary inputs)."""
     W = world()
     script = case["script"]
+    if divides_by_zero(script):
+        return None
     real, op = run_real(W, case)
     if not case.get("valid", True):
         if "error" not in real:
@@ -449,8 +520,9 @@ def shrink(case):
         e2 = dict(e)
         for k, c in OW.children(e):
             e2[k] = rebuild(c, target, repl)
-        if e.get("ents"):
-            e2["ents"] = [rebuild(x, target, repl) if isinstance(x, dict) else x for x in e["ents"]]
+        for key in ("ents", "args"):
+            if e.get(key):
+                e2[key] = [rebuild(x, target, repl) if isinstance(x, dict) else x for x in e[key]]
         return e2
     for n in walk(s):
         for _, c in OW.children(n):
@@ -505,6 +577,10 @@ def compare_one(ctx, W, case, real, model):
     """canonical summaries of both sides; dense matrices compared numerically (class E up to float rounding)"""
     script = case["script"]
     nontrivial = "error" not in real and script["op"] not in ("leaf", "scaling", "diag", "null")
+    if divides_by_zero(script):
+        ctx.stat("skipped-inverse-of-zero-variance")
+        ctx.case(case, nontrivial=False)
+        return True
     if model.get("error") == "ZeroDivisionError":
         # the script inverts a zero scaling: no matrix semantics; the code raises or produces inf depending on whether the
         # factor is a Python or a NumPy float at that point (documented as the caller's responsibility) - not compared
@@ -584,6 +660,9 @@ def run(ctx):
         if i % 10 == 7:
             # two block-diagonal operators with every pattern of missing keys (same key missing in both: 2·id, 0, id)
             cases.append(dict(script=gen_targeted(W, ctx.rng, kind="block"), valid=True, targeted=True))
+        elif i % 10 == 3:
+            # SumOperator.make / ChainOperator.make with 3..6 operands (rules that fire for the 3rd+ operand only)
+            cases.append(dict(script=gen_targeted(W, ctx.rng, kind="nary"), valid=True, targeted=True))
         elif i % 5 in (1, 3):
             cases.append(dict(script=gen_targeted(W, ctx.rng), valid=True, targeted=True))
         else:
